@@ -120,3 +120,10 @@ SHARDS.update({
     "urwid/vterm.py:TermCanvas.csi_set_attr": (12, 6),
     "urwid/vterm.py:TermCanvas.sgi_to_attrspec": (6, 4),
 })
+
+SHARDS.update({
+    # palette registration (contracts/C17_palette.py): the first two choices are the None / text alternatives of the two
+    # high-colour fields (primary) and name x form of mono (mono-forms)
+    "urwid/display/common.py:BaseScreen.register_palette_entry": (4, 2),
+    "urwid/display/common.py:BaseScreen.register_palette_entry#mono-forms": (4, 2),
+})
